@@ -74,6 +74,20 @@ theorem retry_confirms_only_validated {b : Book} (r : Reachable b) (v : Vertex) 
   have hg := r.inv.parkOk (v, rep) hp
   exact addLeafMemorized_parents_checked b0 v rep ⟨by rw [hl]; exact hg.1, hg.2.1, hg.2.2.1, hg.2.2.2⟩ h
 
+/-- **Validation happens under the lock, on the book of that moment.** Whatever the unlocked look-ups of a
+delivery or proposal saw earlier (`Proofs/StaleGuards.lean`), the parents a successful locked body confirms
+were validated against the ledger as it was while the lock was held. -/
+theorem stale_delivery_confirms_only_validated {b0 b1 : Book} (r0 : Reachable b0) (bt : Between b0 b1) (leaf : Vertex) (rep : Nat)
+    (pre : AddPre b0 leaf) (h : (b1.addLeafLocked leaf rep).2 = .ok ()) :
+    ∃ l r, CheckedIn b1 l ∧ CheckedIn b1 r ∧ l.hash = leaf.left ∧ r.hash = leaf.right :=
+  addLeafLocked_parents_checked b1 leaf rep ⟨by rw [(bt.stable r0).1]; exact pre.guards.1, pre.guards.2⟩ h
+
+theorem stale_proposal_confirms_only_validated (b1 : Book) (trx : Trx) (o1 o2 : List Hash) (tip v : Vertex)
+    (h : (b1.createLeafLocked trx o1 o2 tip).2 = .ok v) :
+    ∃ l r, ValidatedIn b1 l ∧ ValidatedIn b1 r ∧ v.left = l.hash ∧ v.right = r.hash :=
+  let ⟨l, r, h1, h2, h3, h4, _⟩ := createLeafLocked_parents_validated b1 trx o1 o2 tip v h
+  ⟨l, r, h1, h2, h3, h4⟩
+
 /-- A tentative tip that fails the test is dropped together with its index entry and edges. -/
 theorem failing_tip_dropped (st : GVL) (v : Vertex) (e : CModel.Err) (h : st.book.validateLeaf v = .error e) :
     (visitTip st v).book.hasVertex v.hash = false ∧ (visitTip st v).book.indexHas v.trx.hash = false ∧
